@@ -160,7 +160,7 @@ class Interp(object):
         self.summaries = summaries if summaries is not None else {}
         self.depth = depth
         self.known_calls = known_calls or {}
-        self.cfg = CFG(func.node, func.qualname)
+        self.cfg = CFG(func.node, func.qualname, peel=True)
         self.IN = self.OUT = None
 
     # ------------------------------------------------------------ evaluation
@@ -262,6 +262,12 @@ class Interp(object):
                     x = self.ev(l.left, env)
                     if isinstance(x, Val):
                         return Val(x.lo - (r.value - 1), x.hi, x.base)
+            for l, r in ((e.left, e.right), (e.right, e.left)):
+                if isinstance(l, ast.BinOp) and isinstance(l.op, ast.FloorDiv) and src(l.right) == src(r):
+                    x = self.ev(l.left, env)
+                    d = self.ev(r, env)
+                    if isinstance(x, Val) and isinstance(d, Val) and not x.base and not d.base and x.lo >= 0 and d.lo >= 1:
+                        return Val(0, x.hi)     # (x // d) * d is in [0, x] for x >= 0, d >= 1
             return _mul_bounds(a, b)
         if isinstance(op, ast.FloorDiv):
             if b.lo == b.hi and b.lo > 0:
@@ -271,7 +277,8 @@ class Interp(object):
                 return Val(lo, hi)
             if b.lo > 0 and a.lo >= 0:
                 hi = a.hi // b.lo if a.hi != INF else INF
-                return Val(0, hi)
+                lo = a.lo // b.hi if (b.hi != INF and a.lo != INF) else 0
+                return Val(lo, hi)
             return TOP
         if isinstance(op, ast.Mod):
             if b.lo > 0 and b.hi != INF:
@@ -313,6 +320,16 @@ class Interp(object):
                 if (not is_or) and falsy:
                     out = x if out is None else join(out, x)
                     return out
+            if isinstance(x, Val) and not x.base and not last and is_or and not x.is_top:
+                # `a or b`: a contributes only its non-zero values
+                lo, hi = x.lo, x.hi
+                if lo == 0:
+                    lo = 1
+                if hi == 0:
+                    hi = -1
+                if lo > hi:
+                    continue
+                x = Val(lo, hi)
             out = x if out is None else join(out, x)
         return out if out is not None else TOP
 
@@ -382,6 +399,11 @@ class Interp(object):
         if fn in ("copysign", "math.copysign") and len(args) == 2 and isinstance(a0, Val) and not a0.base:
             m = max(abs(a0.lo), abs(a0.hi))
             return Val(-m, m)
+        if fn in ("gcd", "math.gcd") and len(args) == 2 and all(isinstance(a, Val) and not a.base for a in args):
+            pos = [a for a in args if a.lo >= 1]
+            if pos:
+                return Val(1, min(a.hi for a in pos))
+            return Val(0, INF)
         if fn in ("calendar.isleap", "isleap", "bool"):
             return Val(0, 1)
         if fn in ("calendar.firstweekday",):
@@ -702,6 +724,18 @@ class Interp(object):
     def edge(self, n, lab, env, env_in):
         if n.kind == "branch" and lab in ("true", "false"):
             return self.assume(n.ast, lab == "true", env)
+        if n.kind == "for" and lab == "exhaust" and n.exc:
+            # peeled first-iteration head: the zero-iteration exit is infeasible when the iterable is provably non-empty
+            it = n.ast.iter
+            if isinstance(it, ast.Call) and src(it.func) == "range":
+                args = [self.ev(x, env_in) for x in it.args]
+                if all(isinstance(x, Val) and not x.base for x in args):
+                    if len(args) == 1 and args[0].lo >= 1:
+                        return None
+                    if len(args) >= 2 and args[1].lo - args[0].hi >= 1:
+                        return None
+            if isinstance(it, (ast.Tuple, ast.List)) and it.elts:
+                return None
         return env
 
     def run(self):
